@@ -308,16 +308,62 @@ func (r *c20Run) issue(a *c20Actor, ch chan c20Cmd, c c20Cmd) string {
 	return r.w.await(a)
 }
 
+// closedRetirements: every retirement channel handed to finishReloadSuccess has a goroutine waiting on it; once the
+// channel is closed that goroutine WILL reach the end-suppression gate. The harness waits for exactly those - no
+// timing assumptions (a short poll made the check depend on machine load).
+func (r *c20Run) closedRetirements() int {
+	n := 0
+	for _, ch := range r.w.waiterCh {
+		select {
+		case <-ch:
+			n++
+		default:
+		}
+	}
+	return n
+}
+
 func (r *c20Run) collectWaiters() {
-	for {
+	want := r.closedRetirements()
+	deadline := time.After(r.w.timeout)
+	for len(r.w.waiters) < want {
 		select {
 		case a := <-c20NewWaiter:
 			r.w.await(a) // parks at "end"
 			r.w.waiters = append(r.w.waiters, a)
-		case <-time.After(200 * time.Microsecond):
+		case <-deadline:
 			return
 		}
 	}
+}
+
+// continueWaiter releases a waiter goroutine from its gate and waits for what it does next. After the "get" gate the
+// goroutine either rewrites a rejected (busy) progress to done - one more gate - or returns; which of the two follows from
+// the progress value it was just handed.
+func (r *c20Run) continueWaiter(a *c20Actor) string {
+	from := a.at
+	r.w.mu.Lock()
+	busy := r.w.progress == consts.ReloadBusy
+	r.w.mu.Unlock()
+	a.at = ""
+	a.release <- struct{}{}
+	if from == "get" && !busy {
+		a.at = "done"
+		return "done"
+	}
+	g := r.w.await(a)
+	if g == "" {
+		return ""
+	}
+	if from == "get" || strings.HasPrefix(from, "set:") {
+		// the last gate of the goroutine: let it finish
+		if strings.HasPrefix(g, "set:") {
+			a.release <- struct{}{}
+		}
+		a.at = "done"
+		return "done"
+	}
+	return g
 }
 
 // do performs one model action; returns a drift description or ""
@@ -452,23 +498,9 @@ func (r *c20Run) do(act c20Action) string {
 		}
 		return exp(w.waiters[act.W-1].at, "end")
 	case "RCp2":
-		return exp(w.step(w.waiters[act.W-1]), "get")
+		return exp(r.continueWaiter(w.waiters[act.W-1]), "get")
 	case "RCp3":
-		a := w.waiters[act.W-1]
-		a.at = ""
-		a.release <- struct{}{}
-		select {
-		case g := <-a.arrive:
-			if g == "set:"+string(consts.ReloadDone) {
-				a.release <- struct{}{}
-			} else {
-				return "RCp3: unexpected gate " + g
-			}
-		case <-time.After(300 * time.Microsecond):
-		}
-		a.at = "done"
-		time.Sleep(100 * time.Microsecond)
-		return ""
+		return exp(r.continueWaiter(w.waiters[act.W-1]), "done")
 	}
 	return "unknown action " + act.A
 }
@@ -636,18 +668,7 @@ func TestVerifC20RandomWalk(t *testing.T) {
 			for _, a := range w.waiters {
 				a := a
 				if a.at != "" && a.at != "done" {
-					add(a.name+".continue", func() string {
-						a.at = ""
-						a.release <- struct{}{}
-						select {
-						case g := <-a.arrive:
-							a.at = g
-							return g
-						case <-time.After(300 * time.Microsecond):
-							a.at = "done"
-							return "done"
-						}
-					})
+					add(a.name+".continue", func() string { return r.continueWaiter(a) })
 				}
 			}
 			if len(opts) == 0 {
